@@ -152,12 +152,12 @@ static void track(int fd, const std::string& path, int flags, int dirfd) {
   FdInfo fi;
   fi.path = path;
   if (dirfd != AT_FDCWD && fstat(dirfd, &st) == 0) {
-    fi.dir_ino = st.st_ino;
+    fi.dir_ino = g.virtOf(st.st_ino);
   } else {
     auto pos = path.rfind('/');
     if (pos != std::string::npos && pos > 0 &&
         stat(path.substr(0, pos).c_str(), &st) == 0) {
-      fi.dir_ino = st.st_ino;
+      fi.dir_ino = g.virtOf(st.st_ino);
     }
   }
   if (fstat(fd, &st) == 0) {
@@ -360,7 +360,7 @@ int setxattr(
     // identity of the directory that actually received the attribute
     struct stat st;
     if (stat(path, &st) == 0) {
-      e.a = st.st_ino;
+      e.a = g.virtOf(st.st_ino);
     }
     g.log(e);
     errno = err;
